@@ -140,6 +140,44 @@ PROBES = {
   PW32("BF_init_S2", BF_init_state.S[2], 256); PW32("BF_init_S3", BF_init_state.S[3], 256);
 #endif
 ''',
+ "alg-sha256.c": r'''
+#if INCLUDE_sha256crypt || INCLUDE_scrypt || INCLUDE_yescrypt || INCLUDE_gost_yescrypt
+  PW32("sha256_K", Krnd, 64); PW32("sha256_iv", initial_state, 8);
+#endif
+''',
+ "alg-sha512.c": r'''
+#if INCLUDE_sha512crypt
+  PW64("sha512_K", K, 80);
+  { SHA512_CTX c; SHA512_Init(&c); PW64("sha512_iv", c.state, 8); }
+#endif
+''',
+ "alg-sha1.c": r'''
+#if INCLUDE_sha1crypt
+  { struct sha1_ctx c; sha1_init_ctx(&c); PW32("sha1_iv", c.state, 5); }
+#endif
+''',
+ "alg-md5.c": r'''
+#if INCLUDE_md5crypt || INCLUDE_sunmd5
+  { MD5_CTX c; MD5_Init(&c); uint32_t v[4] = { c.a, c.b, c.c, c.d }; PW32("md5_iv", v, 4); }
+#endif
+''',
+ "alg-md4.c": r'''
+#if INCLUDE_nt
+  { MD4_CTX c; MD4_Init(&c); uint32_t v[4] = { c.a, c.b, c.c, c.d }; PW32("md4_iv", v, 4); }
+#endif
+''',
+ "alg-des.c": r'''
+#if INCLUDE_descrypt || INCLUDE_bigcrypt || INCLUDE_bsdicrypt
+  PB("des_key_shifts", key_shifts, 16);
+  for (int i = 0; i < 4; i++) for (int j = 0; j < 16; j++) { char nm[32]; sprintf(nm, "des_m_sbox_%d_%d", i, j); PB(nm, &m_sbox[i][j*256], 256); }
+  for (int i = 0; i < 8; i++) { char nm[32];
+    sprintf(nm, "des_ip_maskl_%d", i); PW32(nm, ip_maskl[i], 256); sprintf(nm, "des_ip_maskr_%d", i); PW32(nm, ip_maskr[i], 256);
+    sprintf(nm, "des_fp_maskl_%d", i); PW32(nm, fp_maskl[i], 256); sprintf(nm, "des_fp_maskr_%d", i); PW32(nm, fp_maskr[i], 256);
+    sprintf(nm, "des_key_perm_maskl_%d", i); PW32(nm, key_perm_maskl[i], 128); sprintf(nm, "des_key_perm_maskr_%d", i); PW32(nm, key_perm_maskr[i], 128);
+    sprintf(nm, "des_comp_maskl_%d", i); PW32(nm, comp_maskl[i], 128); sprintf(nm, "des_comp_maskr_%d", i); PW32(nm, comp_maskr[i], 128); }
+  for (int i = 0; i < 4; i++) { char nm[32]; sprintf(nm, "des_psbox_%d", i); PW32(nm, psbox[i], 256); }
+#endif
+''',
  "crypt-yescrypt.c": r'''
 #if INCLUDE_yescrypt || INCLUDE_scrypt
   PNX("sizeof_crypt_yescrypt_internal", sizeof(crypt_yescrypt_internal_t));
@@ -227,7 +265,57 @@ def emit_consts(v):
 def emit_alphabets(v):
     o = [HDR, "namespace Xc.Gen\n"]
     for k in sorted(v["B"]):
+        if k.startswith("des_"): continue
         o.append("def %s : List UInt8 := %s\n" % (k, lst(v["B"][k], 24)))
+    o.append("end Xc.Gen\n")
+    return "\n".join(o)
+
+def emit_des(v):
+    o = [HDR, "namespace Xc.Gen\n"]
+    for k in sorted(v["B"]):
+        if k.startswith("des_"): o.append("def %s : List UInt8 := %s\n" % (k, lst(v["B"][k], 32)))
+    for k in sorted(v["W"]):
+        if k.startswith("des_"): o.append("def %s : List UInt32 := %s\n" % (k, lst(v["W"][k], 8)))
+    def group(name, n):
+        return "def %s : List (List UInt32) := [" % name + ", ".join("%s_%d" % (name, i) for i in range(n)) + "]\n"
+    for t in ["des_ip_maskl", "des_ip_maskr", "des_fp_maskl", "des_fp_maskr", "des_key_perm_maskl", "des_key_perm_maskr", "des_comp_maskl", "des_comp_maskr"]:
+        o.append(group(t, 8))
+    o.append(group("des_psbox", 4))
+    o.append("def des_m_sbox : List (List (List UInt8)) := [" + ", ".join("[" + ", ".join("des_m_sbox_%d_%d" % (i, j) for j in range(16)) + "]" for i in range(4)) + "]\n")
+    o.append("end Xc.Gen\n")
+    return "\n".join(o)
+
+def parse_md_steps(repo):
+    """MD5 / MD4 step schedules from the STEP(...) statement sequences:
+    (function, target register, b, c, d registers, message word, additive constant, rotation)."""
+    out = {}
+    regs = {"a": 0, "b": 1, "c": 2, "d": 3}
+    fcodes = {"md5": {"F": 0, "G": 1, "H": 2, "H2": 2, "I": 3}, "md4": {"F": 0, "G": 1, "H": 2}}
+    for name, fn in [("md5", "alg-md5.c"), ("md4", "alg-md4.c")]:
+        src = open(os.path.join(repo, "lib", fn)).read()
+        rows = []
+        for m in re.finditer(r"^\s*STEP\((\w+), (\w), (\w), (\w), (\w), (?:SET|GET)\((\d+)\)(?: \+ (0x[0-9a-fA-F]+|\w+))?, (?:(0x[0-9a-fA-F]+), )?(\d+)\)", src, re.M):
+            f, a, b, c, d, x, k1, k2, sh = m.groups()
+            if k1 and not k1.startswith("0x"):
+                mm = re.search(r"\b%s\s*=\s*(0x[0-9a-fA-F]+)" % re.escape(k1), src)
+                if not mm: raise RuntimeError("cannot resolve constant %s in %s" % (k1, fn))
+                k1 = mm.group(1)
+            k = int(k1 or k2 or "0", 16)
+            rows.append((fcodes[name][f], regs[a], regs[b], regs[c], regs[d], int(x), k, int(sh)))
+        want = 64 if name == "md5" else 48
+        if len(rows) != want: raise RuntimeError("%s: expected %d STEP lines, found %d" % (fn, want, len(rows)))
+        out[name] = rows
+    return out
+
+def emit_words(v, steps):
+    o = [HDR, "namespace Xc.Gen\n"]
+    for k in sorted(v["W"]):
+        ty = "UInt64" if k.startswith("sha512") else "UInt32"
+        o.append("def %s : List %s := %s\n" % (k, ty, lst(v["W"][k], 8)))
+    for k in sorted(steps):
+        o.append("/-- %s step schedule: (f, a, b, c, d, x, t, s) -/" % k)
+        o.append("def %s_steps : List (Nat × Nat × Nat × Nat × Nat × Nat × UInt32 × Nat) := [\n" % k +
+                 ",\n".join("  (%d, %d, %d, %d, %d, %d, %d, %d)" % r for r in steps[k]) + "]\n")
     o.append("end Xc.Gen\n")
     return "\n".join(o)
 
@@ -315,6 +403,8 @@ def generate(outdir, repo=cbuild.REPO, scratch=None, objs=None):
             "Alphabets.lean": emit_alphabets(v),
             "Table.lean": emit_table(v, conf, enabled),
             "Perms.lean": emit_perms(parse_perms(repo)),
+            "Words.lean": emit_words({"W": {k: x for k, x in v["W"].items() if not k.startswith("des_")}}, parse_md_steps(repo)),
+            "DesTables.lean": emit_des(v),
         }
         import gen_tables
         files.update(gen_tables.generate(d, repo, v))
